@@ -481,6 +481,17 @@ def check_special(e, block):
             seen.add(k)
             if k in got and got[k] not in v.split("|"):
                 return "column %s: implementation reports %s, true value(s) of the frame %s (or unset)" % (k, got[k], v)
+        elif "%=" in item:
+            # layer sizes: one per reported layer, equal to the true sizes; only the last one may be smaller
+            # (a label stack cut in the middle reports the labels captured)
+            k, v = item.split("%=", 1)
+            seen.add(k)
+            a, b = (list_items(got[k]) if k in got else []), list_items(v)
+            stack = list_items(got["LayerStack"]) if "LayerStack" in got else []
+            if len(a) != len(stack):
+                return "column %s: %d sizes reported for %d layers (%s / %s)" % (k, len(a), len(stack), got.get(k, "[]"), got.get("LayerStack", "[]"))
+            if len(a) > len(b) or a[:-1] != b[:max(len(a) - 1, 0)] or (a and int(a[-1]) > int(b[len(a) - 1])):
+                return "column %s: implementation reports %s, true sizes %s" % (k, got.get(k, "[]"), v)
         elif "^=" in item:
             k, v = item.split("^=", 1)
             seen.add(k)
